@@ -51,6 +51,7 @@ OK_REPLIES = {
     'ok-headers': b'HTTP/1.1 200 OK\r\nProxy-Agent: x\r\nVia: 1.1 p\r\n\r\n',
     'ok-http10': b'HTTP/1.0 200 Connection established\r\n\r\n',
     'ok-noreason': b'HTTP/1.1 200\r\n\r\n',
+    'ok-braces': b'HTTP/1.1 200 {} OK {0} %s\r\nVia: {x} }{\r\n\r\n',
     'ok-big-16000': b'HTTP/1.1 200 OK\r\nX-Pad: ' + b'p' * (16000 - 30) + b'\r\n\r\n',
 }
 BAD_REPLIES = {
@@ -61,6 +62,8 @@ BAD_REPLIES = {
     'status-101': b'HTTP/1.1 101 Switching Protocols\r\nUpgrade: websocket\r\n\r\n',
     'status-100': b'HTTP/1.1 100 Continue\r\n\r\n',
     'status-302': b'HTTP/1.1 302 Found\r\nLocation: http://x/\r\n\r\n',
+    'status-403-braces': b'HTTP/1.1 403 {} Forbidden {0!r} %s\r\nX: {y}\r\n\r\n',
+    'status-braces': b'HTTP/1.1 {} {}\r\n\r\n',
     'status-nonnumeric': b'HTTP/1.1 OK fine\r\n\r\n',
     'garbage': b'\x00\x01\x02garbage\r\n\r\n',
     'ws-frame': F(1, b'hello') + b'\r\n\r\n',
